@@ -121,6 +121,9 @@ def scenarios():
         SC("rekeep-same-code", [k("/c6/p", "s_text")], k("/c6/p", "s_text"), {("/c6/p", "data"): [E["s_text"]]}, {("/c6/p", "data"): E["s_text"]}),
         SC("cold-first-keep-frame-parquet", [], k("/c6/frame", "s_frame"), {}, {("/c6/frame", "data"): scen.frame_value()}),
         SC("rekeep-changed-code-with-object-cache", [k("/c6/p", "s_text", cache=2)], k("/c6/p", "s_text_v2", cache=2), {("/c6/p", "data"): [E["s_text"]]}, {("/c6/p", "data"): E["s_text_v2"]}),
+        # internal and data directory on different file systems (a link cannot be renamed from one into the other)
+        SC("rekeep-changed-code-data-dir-on-other-file-system", [k("/c6/p", "s_text", data="@otherfs"), k("/c6/deep/q", "s_obj", data="@otherfs")], k("/c6/p", "s_text_v2", data="@otherfs"),
+           {("/c6/p", "@otherfs"): [E["s_text"]], ("/c6/deep/q", "@otherfs"): [E["s_obj"]]}, {("/c6/p", "@otherfs"): E["s_text_v2"], ("/c6/deep/q", "@otherfs"): E["s_obj"]}),
         # a store written by an early release (metadata without timestamp) is only read: served results, loads
         SC("served-from-old-format-store", [k("/c6/p", "s_text"), scen.act_old_format_metadata()], k("/c6/p", "s_text"), {("/c6/p", "data"): [E["s_text"]]}, {("/c6/p", "data"): E["s_text"]}),
         SC("nested-eval-served-from-old-format-store", [scen.act_eval_top(), scen.act_old_format_metadata()], scen.act_eval_top(),
@@ -137,16 +140,29 @@ def scenarios():
 
 
 def _copy_store(tmpl, run):
-    """Copies the prepared store to the run directory and re-points its absolute links."""
-    shutil.copytree(tmpl, run, symlinks=True)
-    for dirpath, dirnames, filenames in os.walk(run):
-        for n in dirnames + filenames:
-            q = os.path.join(dirpath, n)
-            if os.path.islink(q):
-                t = os.readlink(q)
-                if t.startswith(tmpl + os.sep):
-                    os.remove(q)
-                    os.symlink(run + t[len(tmpl):], q)
+    """Copies the prepared store to the run directory and re-points its absolute links (also in the companion
+    directory that a scenario may keep on another file system)."""
+    pairs = [(tmpl, run)]
+    ct, cr = scen.companion(tmpl), scen.companion(run)
+    if ct and os.path.isdir(ct):
+        if os.path.lexists(cr):
+            shutil.rmtree(cr, ignore_errors=True)
+        pairs.append((ct, cr))
+    elif cr and os.path.lexists(cr):
+        shutil.rmtree(cr, ignore_errors=True)
+    for src, dst in pairs:
+        shutil.copytree(src, dst, symlinks=True)
+    for src, dst in pairs:
+        for dirpath, dirnames, filenames in os.walk(dst):
+            for n in dirnames + filenames:
+                q = os.path.join(dirpath, n)
+                if os.path.islink(q):
+                    t = os.readlink(q)
+                    for a, b in pairs:
+                        if t.startswith(a + os.sep):
+                            os.remove(q)
+                            os.symlink(b + t[len(a):], q)
+                            break
 
 
 def file_class(rel):
@@ -271,7 +287,7 @@ def scenario_job(arg):
             def bad(what, mech):
                 rep.violate("%s, killed before op %d (%s %s): %s" % (sc["name"], n, rkind, rrel if len(rrel) < 70 else rrel[:30] + ".." + rrel[-24:], what), case, mechanism=mech, features=feats)
 
-            if _orphan_blobs(run) and not sc["recover_extra"]:
+            if _orphan_blobs(run) and not sc["recover_extra"] and not any(v == "@otherfs" for (_, v) in sc["after"]):
                 # the recovering process may select other codecs than the killed one: blob and metadata must still agree
                 saved = os.path.join(td, "saved")
                 shutil.copytree(run, saved, symlinks=True)
@@ -447,7 +463,7 @@ def run(tier, seed):
     results = core.fork_map(scenario_job, jobs, timeout=3000)
     if tier != "thorough":
         # real kills of a real interpreter (no shim: the kernel's and Python's own buffering) on two scenarios, rotating with the seed
-        picks = sorted(set([0, (4 + seed) % 14, [i for i, x in enumerate(scs) if x["name"] == "nested-keep-top-cold"][0]]))
+        picks = sorted(set([0, (4 + seed) % 14, [i for i, x in enumerate(scs) if x["name"] == "nested-keep-top-cold"][0], [i for i, x in enumerate(scs) if x["name"] == "rekeep-changed-code-data-dir-on-other-file-system"][0]]))
         ex = core.fork_map(strace_job, picks, timeout=1500)
         for i, r in zip(picks, ex):
             if isinstance(r, core.JobFailed):
